@@ -4,6 +4,8 @@ Every point at which another caller can observe or change the shared state is a 
 what it is about to do and waits for the scheduler.  The scheduler holds a TLC behaviour - a sequence of
 (caller, label) - and releases exactly one thread per step.  The real FileLock, the real files and the real cache
 classes are used; only their entry points are wrapped."""
+import builtins
+import os
 import pathlib
 import threading
 import time
@@ -138,8 +140,34 @@ class Patch:
 
     def __enter__(self):
         self.orig = (tcache.FileLock, pathlib.Path.exists, pathlib.Path.open)
+        self.orig2 = (builtins.open, os.unlink, os.remove)
         o_exists, o_open = self.orig[1], self.orig[2]
+        b_open, o_unlink = self.orig2[0], self.orig2[1]
         tcache.FileLock = SchedLock
+
+        def bopen(file, mode='r', *a, **k):
+            # numpy / pandas open the cache file with the builtin
+            s = _S[0]
+            if (s is not None and threading.get_ident() in s.managed and isinstance(file, (str, os.PathLike))
+                    and os.fspath(file) == s.cache_file):
+                if 'r' in mode and '+' not in mode:
+                    s.yield_point('opnr')
+                    return _Reader(b_open(file, mode, *a, **k), s)
+                s.yield_point('opnw')
+                return _Writer(b_open(file, mode, *a, **k), s)
+            return b_open(file, mode, *a, **k)
+
+        def unlink(path, *a, **k):
+            # removing a file of the cache directory (the entry or its lock file) is visible to the other callers
+            s = _S[0]
+            if (s is not None and threading.get_ident() in s.managed and isinstance(path, (str, os.PathLike))
+                    and os.path.dirname(os.fspath(path)) == os.path.dirname(s.cache_file)):
+                s.yield_point('unlink', os.fspath(path))
+            return o_unlink(path, *a, **k)
+
+        builtins.open = bopen
+        os.unlink = unlink
+        os.remove = unlink
 
         def exists(p, *a, **k):
             s = _S[0]
@@ -163,11 +191,32 @@ class Patch:
 
     def __exit__(self, *a):
         tcache.FileLock, pathlib.Path.exists, pathlib.Path.open = self.orig
+        builtins.open, os.unlink, os.remove = self.orig2
 
 
-def value_of(c):
+def value_of(c, kind='json'):
     """the value caller c computes: distinguishable and of a distinct length, so overlaid writes cannot cancel out"""
+    if kind == 'numpy':
+        import numpy as np
+        return np.full(40 * c + 8, float(c))
+    if kind == 'df':
+        import pandas as pd
+        return pd.DataFrame({'by': [c] * (3 * c + 2), 'pad': ['x' * (5 * c + 1)] * (3 * c + 2)})
     return {'by': c, 'pad': 'x' * (7 * c + 3)}
+
+
+def same_value(kind, a, b):
+    if kind == 'numpy':
+        import numpy as np
+        return isinstance(a, np.ndarray) and a.shape == b.shape and bool((a == b).all())
+    if kind == 'df':
+        import pandas as pd
+        return isinstance(a, pd.DataFrame) and a.equals(b)
+    return a == b
+
+
+FACTORY = {'json': lambda d: tcache.JsonCache(d), 'numpy': lambda d: tcache.NumpyArrayCache(d),
+           'df': lambda d: tcache.DataFrameCache(d)}
 
 
 def _file_complete(path):
@@ -180,16 +229,16 @@ def _file_complete(path):
         return False
 
 
-def execute(steps, ops, present, directory, cache_factory=None, key='the key', rng=None):
+def execute(steps, ops, present, directory, cache_factory=None, key='the key', rng=None, kind='json'):
     """Run one behaviour.  steps: [(caller, label)], ops: {caller: 'get'|'goc'|'force'}.
     Returns dict(results, file, drift, log, computes)."""
     s = Sched()
     s.finished = set()
     _S[0] = s
-    cache = (cache_factory or tcache.JsonCache)(directory)
+    cache = (cache_factory or FACTORY[kind])(directory)
     s.cache_file = str(cache.filepath(key))
     if present:
-        cache.get_or_compute(key, lambda: value_of(0))
+        cache.get_or_compute(key, lambda: value_of(0, kind))
     results, computes = {}, []
 
     def body(c):
@@ -198,7 +247,7 @@ def execute(steps, ops, present, directory, cache_factory=None, key='the key', r
         def computer():
             s.yield_point('comp')
             computes.append(c)
-            return value_of(c)
+            return value_of(c, kind)
 
         try:
             if ops[c] == 'get':
@@ -231,15 +280,15 @@ def execute(steps, ops, present, directory, cache_factory=None, key='the key', r
                     time.sleep(0.001)
                     continue
                 c = rng.choice(ready)
-                kind = s.parked[c][0]
+                yk = s.parked[c][0]
                 if c in first:
                     first.discard(c)
                     facts[c]['complete_at_start'] = _file_complete(s.cache_file)
-                if kind in ('opnw', 'wra', 'wrb'):
+                if yk in ('opnw', 'wra', 'wrb'):
                     for o in ops:
                         if o != c and o not in first and o not in s.finished and not facts[o]['computed']:
                             facts[o]['disturbed'] = True
-                if kind == 'comp':
+                if yk == 'comp':
                     facts[c]['computed'] = True
                 s.release(c)
                 t0 = time.time()
@@ -280,9 +329,25 @@ def execute(steps, ops, present, directory, cache_factory=None, key='the key', r
         for t in threads.values():
             t.join(10)
     _S[0] = None
+    content = None
+    final_ok = None
     try:
-        content = pathlib.Path(s.cache_file).read_text()
+        if kind == 'json':
+            content = pathlib.Path(s.cache_file).read_text()
+        elif os.path.exists(s.cache_file):
+            content = f'<{os.path.getsize(s.cache_file)} bytes>'
+            try:
+                v = cache.load_value(pathlib.Path(s.cache_file), key)
+                final_ok = any(same_value(kind, v, value_of(w, kind)) for w in set(computes) | ({0} if present else set()))
+            except Exception as e:  # noqa
+                final_ok = False
+                content += f' unreadable: {type(e).__name__}'
     except FileNotFoundError:
         content = None
+    # make results comparable across the process boundary
+    for c, r in list(results.items()):
+        if r[0] == 'val' and kind != 'json':
+            who = [w for w in set(computes) | {0} if same_value(kind, r[1], value_of(w, kind))]
+            results[c] = ('val', {'by': who[0]} if who else {'by': None, 'repr': str(r[1])[:60]})
     return dict(results=results, file=content, drift=s.drift, log=s.log, computes=computes,
-                hung=[c for c, t in threads.items() if t.is_alive()], facts=facts)
+                hung=[c for c, t in threads.items() if t.is_alive()], facts=facts, final_ok=final_ok, kind=kind)
